@@ -304,6 +304,10 @@ _FUNCS = {
     't0': lambda: (lambda t: t[0]),
     't1': lambda: (lambda t: t[1]),
     'tsum': lambda: (lambda t: t[0] + t[1]),
+    # lazy, one-shot iterables without len(): a generator, a zip object, a map object (only placed directly in front of flat_map, C01)
+    'genup': lambda k: (lambda i: (x for x in range(i % k))),
+    'zipit': lambda k: (lambda i: zip(range(i % k), range(10, 10 + i % k))),
+    'mapit': lambda k: (lambda i: map(abs, range(-(i % k), 0))),
     'len': lambda: len,
     'lsum': lambda: (lambda l: sum(l)),
     'isnone': lambda: (lambda o: 0 if o is None else o),
